@@ -36,6 +36,9 @@ def run(tier):
         return out
 
     sets = []
+    corpus2 = L.load_corpus('c02_static_scale.txt')
+    if corpus2:
+        sets.append(('corpus-static', 'vpsc', corpus2, False))
     corpus = L.load_corpus('c02_cost_stall.txt')
     if corpus:
         sets.append(('corpus', 'vpsc', corpus, True))
@@ -71,7 +74,7 @@ def run(tier):
     twin_pairs = twin_bad = 0
     for label, impl, insts, enum in sets:
         real, drv, errs, dts = L.run_batch(insts, impl, tag='c02' + label, enum=enum)
-        errors += errs
+        errors += [str(e) for e in errs]
         times[label] = [round(x, 2) for x in dts]
         for t, c in L.histogram(insts).items():
             hist[label + ':' + t] = c
@@ -122,7 +125,10 @@ def run(tier):
         fp = None
         if 'optimum' in v or 'gap_bound' in v:
             try:
-                if L.classify_cost_stall(ins, v['op_index'], v['impl']):
+                if ins['kind'] == 'S':
+                    if L.classify_static_scale(ins, v['op_index'], v['impl']):
+                        fp = 'static_scale'
+                elif L.classify_cost_stall(ins, v['op_index'], v['impl']):
                     fp = 'cost_stall'
             except Exception as e:
                 v['classify_error'] = str(e)
